@@ -62,6 +62,8 @@ def run(ctx):
     ctx.rule("R4", "per-trajectory isolation: indexing discipline, row-0 broadcasts, batch-global scalars")
     ctx.rule("R5", "scratch-buffer hygiene: reusable per-object buffers are re-initialised on every fetch (no state leaks between crossings/trajectories)")
     ctx.rule("R6", "the adaptive sub-step controller sees the coupling at both ends of the nuclear step")
+    ctx.rule("R7", "Tully model surfaces: adiabatic gradients are the derivatives of the adiabatic energies, the coupling is d(theta)/dx, diabatic derivatives match their functions (expression algebra)")
+    _r7_tully_models(ctx, repo)
     _r6_controller(ctx, nad)
     _r5(ctx, nad)
 
@@ -512,3 +514,87 @@ def _r6_controller(ctx, nad):
                   f"the adaptive sub-step count is computed from the coupling at both ends of the step ({l}, {r})",
                   f"the adaptive sub-step count depends on {sorted(x for x in (l, r) if x in roots_) or 'neither end value'} only (of {l}, {r}): a coupling spike at the other end of the "
                   f"nuclear step is integrated with the base number of RK4 sub-steps and the electronic norm is lost to first order in the spike")
+
+
+def _r7_tully_models(ctx, repo):
+    """Energy conservation of the model surface-hopping runs needs force = -dE/dx on every adiabatic surface.  The 2x2
+    diabatic->adiabatic conversion and the three model potentials are re-read as sympy expressions (V_ij as unknown functions of x for
+    the conversion; explicit expressions on each side of x = 0 for the models) and differentiated."""
+    import sympy as sp
+    rel = "scripts/tully_surface_hopping/TullyModels.py"
+    if not repo.has(rel):
+        raise AnalysisError("TullyModels.py not found")
+    m = repo.mod(rel)
+    f = m.func("TullyModel._two_state_from_diabatic")
+    x = sp.Symbol("x", real=True)
+    V11, V22, V12 = (sp.Function(n)(x) for n in ("V11", "V22", "V12"))
+    env = {"V11": V11, "V22": V22, "V12": V12, "dV11": sp.diff(V11, x), "dV22": sp.diff(V22, x), "dV12": sp.diff(V12, x)}
+    funcs = torch_funcs()
+    funcs["torch.stack"] = lambda a, n: tuple(a[0]) if isinstance(a[0], (list, tuple)) else a[0]
+    ret = None
+    for st in f.body:
+        if isinstance(st, ast.Assign) and len(st.targets) == 1 and isinstance(st.targets[0], ast.Name):
+            env[st.targets[0].id] = to_sympy(st.value, env, funcs)
+        elif isinstance(st, ast.Return):
+            ret = st
+    if ret is None or not isinstance(ret.value, ast.Tuple) or len(ret.value.elts) != 3:
+        raise AnalysisError("_two_state_from_diabatic: return (energies, gradients, coupling) not found")
+
+    def stack_elems(e):
+        if isinstance(e, ast.Call) and (call_name(e) or "") == "torch.stack" and e.args and isinstance(e.args[0], (ast.List, ast.Tuple)):
+            return [to_sympy(v, env, funcs) for v in e.args[0].elts]
+        raise AnalysisError("_two_state_from_diabatic: stacked return values not recognised")
+    Es, dEs = stack_elems(ret.value.elts[0]), stack_elems(ret.value.elts[1])
+    nac = to_sympy(ret.value.elts[2], env, funcs)
+    delta = V11 - V22
+    S = sp.sqrt(delta ** 2 + 4 * V12 ** 2)
+    want = [(V11 + V22) / 2 - S / 2, (V11 + V22) / 2 + S / 2]
+    for i, (E, dE) in enumerate(zip(Es, dEs)):
+        ctx.check(sp.simplify(E - want[i]) == 0, "R7", m, f, "TullyModel._two_state_from_diabatic", f"E{i + 1}", f"E{i + 1} is the {'lower' if i == 0 else 'upper'} eigenvalue of the 2x2 diabatic matrix",
+                  f"E{i + 1} = {E} is not an eigenvalue of [[V11, V12], [V12, V22]]")
+        resid = sp.simplify(dE - sp.diff(E, x))
+        ctx.check(resid == 0, "R7", m, f, "TullyModel._two_state_from_diabatic", f"dE{i + 1}", f"dE{i + 1} = d(E{i + 1})/dx identically in V11, V22, V12",
+                  f"dE{i + 1} differs from the derivative of E{i + 1} by {resid}: the force on adiabatic surface {i + 1} is not -dE/dx, trajectories do not conserve energy")
+    theta_p = (delta * sp.diff(V12, x) - sp.diff(delta, x) * V12) / (delta ** 2 + 4 * V12 ** 2)
+    ctx.check(sp.simplify(nac - theta_p) == 0, "R7", m, f, "TullyModel._two_state_from_diabatic", "nac", "derivative coupling = d(theta)/dx with tan(2 theta) = 2 V12 / (V11 - V22)",
+              f"derivative coupling {nac} is not d(theta)/dx = {theta_p}")
+    # model potentials: each dVij equals the derivative of Vij on both sides of x = 0
+    n = 0
+    for qual, fn in m.functions.items():
+        if not qual.endswith(".<locals>.pot"):
+            continue
+        outer = m.func(qual.rsplit(".<locals>.pot", 1)[0])
+        consts = {}
+        for st in outer.body:
+            if isinstance(st, ast.Assign) and len(st.targets) == 1 and isinstance(st.targets[0], ast.Name):
+                try:
+                    consts[st.targets[0].id] = to_sympy(st.value, dict(consts), funcs)
+                except AnalysisError:
+                    pass
+        for side in (1, -1):
+            xs = sp.Symbol("xp", positive=True)
+            xv = side * xs
+            env2 = dict(consts)
+            argname = fn.args.args[0].arg
+            env2[argname] = xv
+            f2 = dict(funcs)
+            f2["torch.abs"] = lambda a, n_: sp.Abs(a[0])
+            f2["torch.sign"] = lambda a, n_: sp.sign(a[0])
+            f2["torch.exp"] = lambda a, n_: sp.exp(a[0])
+            f2["torch.zeros_like"] = lambda a, n_: sp.Integer(0)
+            f2["torch.ones_like"] = lambda a, n_: sp.Integer(1)
+            for st in fn.body:
+                if isinstance(st, ast.Assign) and len(st.targets) == 1 and isinstance(st.targets[0], ast.Name):
+                    try:
+                        env2[st.targets[0].id] = to_sympy(st.value, env2, f2)
+                    except AnalysisError as e:
+                        raise AnalysisError(f"{qual}: cannot interpret `{short(norm(st), 60)}`: {e}")
+            for a in ("11", "22", "12"):
+                if f"V{a}" in env2 and f"dV{a}" in env2:
+                    n += 1
+                    # d/dx = side * d/dxs
+                    resid = sp.simplify(env2[f"dV{a}"] - side * sp.diff(env2[f"V{a}"], xs))
+                    ctx.check(resid == 0, "R7", m, fn, qual, f"dV{a} ({'x>0' if side > 0 else 'x<0'})", f"{qual}: dV{a} = dV{a}/dx for {'x > 0' if side > 0 else 'x < 0'}",
+                              f"{qual}: dV{a} differs from the derivative of V{a} by {resid} for {'x > 0' if side > 0 else 'x < 0'}")
+    if n < 12:
+        raise AnalysisError(f"only {n} model derivative identities checked")
